@@ -1044,9 +1044,9 @@ func (p *c10prop) Run(c *core.Case, st *core.Stats) []core.Violation {
 	}
 	t := sc.Text
 	if c.Kind == "bigseg" {
-		class, msg := checkSegmentsBig(t, sc.Min, sc.Max, core.Rand(c.Seed, "C10", "bigseg-pairs", c.Idx), st)
+		class, msg := checkSegmentsBig(t, sc.Min, sc.Max, (c.Idx/8)%2 == 1, core.Rand(c.Seed, "C10", "bigseg-pairs", c.Idx), st)
 		if class != "" {
-			return []core.Violation{core.V(c, class, "text of %d bytes (family %s) minLen=%d maxLen=%d, suffix array from suffix.Sort (verified), LCP table by the harness: %s", len(t), sc.Family, sc.Min, sc.Max, msg)}
+			return []core.Violation{core.V(c, class, "text of %d bytes (family %s) minLen=%d maxLen=%d, suffix array from suffix.Sort (verified), LCP table by the harness (cases 8-15 of 16: from suffix.LCP): %s", len(t), sc.Family, sc.Min, sc.Max, msg)}
 		}
 		st.Inc("segments_calls")
 		st.Inc("segments_calls_on_big_texts")
@@ -1106,5 +1106,5 @@ func init() {
 	core.Register(&c10prop{base{id: "C10", level: "exploration",
 		rule:        "exhaustive small scope: all texts over {a,b} up to length 12 (thorough 16) and over {a,b,c} up to length 7 (thorough 10), each with ALL 0 <= minLen <= maxLen <= 5 (thorough 6), plus seeded family texts up to 200 bytes with random (minLen, maxLen); Segments receives a naively computed suffix array and LCP table (independent of C09); each call runs in four modes: callback copies only / callback sorts the segment in place (as osap.go does) / lcp and sa are adjacent sub-slices of one allocation guarded by canaries / the callback calls Segments itself on another text; every clause is decided by brute force over all suffix pairs from a pairwise LCP matrix; non-trivial iff len(t) >= 3; distinct = distinct (text, bounds)",
 		assumptions: []string{"minLen > maxLen and negative bounds are outside the quantifier of C10 and are not executed"},
-		mandatory:   []string{"segments_calls", "pairs_checked", "texts_with_fall_and_rise_profile", "empty_text", "callbacks", "segments_calls_mode4", "segments_calls_on_big_texts", "lcp_intervals_checked", "nested_groups_order_checked", "texts_with_interval_nesting_deeper_than_64"}}})
+		mandatory:   []string{"segments_calls", "pairs_checked", "texts_with_fall_and_rise_profile", "empty_text", "callbacks", "segments_calls_mode4", "segments_calls_on_big_texts", "lcp_intervals_checked", "nested_groups_order_checked", "texts_with_interval_nesting_deeper_than_64", "big_texts_with_the_librarys_lcp_table"}}})
 }
